@@ -239,6 +239,41 @@ def rhs_side_effect_family(rng):
     return out
 
 
+
+def index_boundary_family(tier="quick"):
+    """every way of addressing a list position (read, indexed write, write through a nested path, insert-at, remove-at)
+    with index values on and next to every boundary: -1, a negative fraction, minus zero, 0, a fraction, last, last + fraction,
+    length, beyond, huge, and computed not-a-number / infinity / negative fraction; the list, an alias of it and a container
+    holding it are printed before and after, so a write that lands on another element than the addressed one, or succeeds where
+    the position does not exist, shows"""
+    vals = [("minus-one", G.num(-1)), ("neg-fraction", G.num("-0.5")), ("minus-zero", G.un("-", G.num(0))), ("zero", G.num(0)),
+            ("fraction", G.num("0.5")), ("last", G.num(2)), ("last-and-fraction", G.num("2.5")), ("length", G.num(3)),
+            ("beyond", G.num("3.5")), ("huge", G.num("1" + "0" * 18)),
+            ("computed-neg-fraction", G.bin_("/", G.bin_("-", G.num(0), G.num(1)), G.num(2))),
+            ("nan", G.bin_("/", G.num(0), G.num(0))), ("infinity", G.bin_("/", G.num(1), G.num(0))),
+            ("neg-tiny", G.bin_("/", G.bin_("-", G.num(0), G.num(1)), G.num("1" + "0" * 18)))]
+    out = []
+    for vn, ix in vals:
+        for op in ("read", "write", "write-nested", "write-second-level", "push-at", "pop-at"):
+            prog = [("decl", "তা", G.lst(G.num(10), G.num(20), G.num(30))), ("decl", "অন্য", G.var("তা")),
+                    ("decl", "ধার", G.lst(G.var("তা"), G.lst(G.num(41), G.num(50)))), ("print", G.var("তা"))]
+            if op == "read":
+                act = [("print", G.idx(G.var("তা"), ix))]
+            elif op == "write":
+                act = [("assign", "তা", [ix], G.num(99))]
+            elif op == "write-nested":
+                act = [("assign", "ধার", [G.num(0), ix], G.num(99))]
+            elif op == "write-second-level":
+                act = [("assign", "ধার", [ix, G.num(0)], G.num(99))]
+            elif op == "push-at":
+                act = [("expr", G.call("_লিস্ট-পুশ", G.var("তা"), ix, G.num(99)))]
+            else:
+                act = [("expr", G.call("_লিস্ট-পপ", G.var("তা"), ix))]
+            prog += act + [("print", G.s("পরে")), ("print", G.var("তা")), ("print", G.var("অন্য")), ("print", G.var("ধার")),
+                           ("print", G.call("_লিস্ট-লেন", G.var("তা")))]
+            out.append(prog_case("index-boundary", prog, info={"index": vn, "op": op}))
+    return out
+
 def cases(rng, tier, stats):
     out = []
     n = 15000 if tier == "thorough" else 600
@@ -327,4 +362,7 @@ def cases(rng, tier, stats):
     op = operand_provenance_family(rng)
     out += op
     stats["operand_provenance_family"] = len(op)
+    ib = index_boundary_family(tier)
+    out += ib
+    stats["index_boundary"] = len(ib)
     return out
